@@ -266,6 +266,16 @@ def _check(prop, tier, seed, scr, t0):
         "wall_s": round(wall, 2),
         "violations": len(violations),
     }
+    if prop == "C08":
+        # corpus coverage against the option types the library's parser knows (DESIGN.md §4.1)
+        try:
+            src = open(os.path.join(scr, "src", "dhcpv6", "options.go")).read()
+            known = sorted(set(re.findall(r"opt = &(\w+)\{", src)))
+            seen = set(k[len("type *dhcpv6."):] for k in agg["probes"] if k.startswith("type *dhcpv6."))
+            ev["coverage"]["dhcpv6_option_types_in_parser"] = known
+            ev["coverage"]["dhcpv6_option_types_not_in_corpus"] = [k for k in known if k not in seen]
+        except Exception as e:  # never a verdict
+            ev["coverage"]["dhcpv6_option_types_not_in_corpus"] = ["(could not be computed: %s)" % e]
     os.makedirs(os.path.join(OUT_BASE, "evidence"), exist_ok=True)
     json.dump(ev, open(os.path.join(OUT_BASE, "evidence", prop + ".json"), "w"), indent=1)
     # ---- report
